@@ -107,7 +107,34 @@ func seqCount(k, maxLen int) int {
 	return t
 }
 
-func seqCase(cfg Cfg, k, maxLen, from, to, batchNo int) Case {
+// Gen is the compact description of a case from which the worker rebuilds the step list.
+type Gen struct {
+	K, MaxLen, From, To, Batch int      `json:",omitempty"`
+	Jump                       bool     `json:",omitempty"` // letter K-1 is the jump letter
+	Scripts                    []string `json:",omitempty"`
+	Pos                        [][]int  `json:",omitempty"`
+}
+
+func expand(cs Case) Case {
+	if len(cs.Steps) > 0 || cs.Gen == nil {
+		return cs
+	}
+	g := cs.Gen
+	var out Case
+	if cs.Kind == "seq" {
+		out = seqCase(cs.Cfg, g.K, g.MaxLen, g.From, g.To, g.Batch, g.Jump)
+	} else {
+		var rs []placed
+		for i := range g.Scripts {
+			rs = append(rs, placed{g.Scripts[i], g.Pos[i]})
+		}
+		out = placeCase(cs.Cfg, cs.StartSeq, rs...)
+	}
+	out.Gen = nil
+	return out
+}
+
+func seqCase(cfg Cfg, k, maxLen, from, to, batchNo int, jump bool) Case {
 	cs := Case{Cfg: cfg, Kind: "seq"}
 	cs.Cfg.Rd2 = ""
 	starts := []uint16{0, 65534, 65531}
@@ -120,6 +147,9 @@ func seqCase(cfg Cfg, k, maxLen, from, to, batchNo int) Case {
 		}
 		for _, li := range seqWord(n, k, maxLen) {
 			l := seqAlphabet[li]
+			if jump && li == k-1 {
+				l = seqAlphabet[len(seqAlphabet)-1]
+			}
 			cs.Steps = append(cs.Steps, Step{Op: "w", L: &l})
 		}
 		cs.Steps = append(cs.Steps, Step{Op: "b"})
@@ -315,6 +345,36 @@ func main() {
 			return out
 		})
 	}
+	if os.Getenv("C01_PROBE") != "" {
+		// debugging aid: one small word batch and a few placement cases per configuration, in-process
+		sysx.HangLimit = 5 * time.Second
+		p1 := readerPlacements(4)
+		for ci, cfg := range configs() {
+			if f := os.Getenv("C01_ONLY"); f != "" && !strings.Contains(cfg.String(), f) {
+				continue
+			}
+			k := 6
+			if allReliable(cfg) {
+				k = 7
+			}
+			t0 := time.Now()
+			r := runCase(seqCase(cfg, k, 2, 0, 40, ci, false))
+			fmt.Printf("%-44s seq: %6.1fms written=%d received=%d fails=%d err=%q tap=%d %s\n", cfg, float64(time.Since(t0).Microseconds())/1000, r.Written, r.Received, len(r.Fails), r.HarnessErr, r.TapFrames, r.TapSkipped)
+			for _, f := range r.Fails {
+				fmt.Println("   FAIL", f.Sig, f.Msg)
+			}
+			for _, pi := range []int{900, 950, 400} {
+				t0 = time.Now()
+				cs := placeCase(cfg, 65534, p1[pi%len(p1)], p1[(pi*7)%len(p1)])
+				r = runCase(cs)
+				fmt.Printf("   place: %6.1fms written=%d received=%d fails=%d err=%q tap=%d udpmiss=%d old=%d %s | %s\n", float64(time.Since(t0).Microseconds())/1000, r.Written, r.Received, len(r.Fails), r.HarnessErr, r.TapFrames, r.UDPMissing, r.OldPackets, r.TapSkipped, caseString(cs)[len(cfg.String()):])
+				for _, f := range r.Fails {
+					fmt.Println("   FAIL", f.Sig, f.Msg)
+				}
+			}
+		}
+		os.Exit(0)
+	}
 	run := evid.New("C01", "model_checking")
 	thorough := run.Thorough()
 	seqLen, seqK := 4, 6
@@ -368,54 +428,103 @@ func main() {
 		run.Finish()
 	}
 
-	cfgs := configs()
+	only := os.Getenv("C01_ONLY")   // debugging: substring filter on the configuration name
+	parts := os.Getenv("C01_PARTS") // debugging: subset of seq,place1,place2,srtpwrap
+	part := func(p string) bool { return parts == "" || strings.Contains(parts, p) }
+	var cfgs []Cfg
+	for _, c := range configs() {
+		if only == "" || strings.Contains(c.String(), only) {
+			cfgs = append(cfgs, c)
+		}
+	}
+	if only != "" || parts != "" {
+		run.Cap("debug filter C01_ONLY/C01_PARTS in effect")
+	}
 	var cases []Case
-	// part 1
+	// part 1: packet words
 	batch := 120
 	nSeq := 0
-	for _, cfg := range cfgs {
-		k := seqK
-		if allReliable(cfg) {
-			k = seqK + 1
-			if k > len(seqAlphabet) {
-				k = len(seqAlphabet)
+	if part("seq") {
+		for _, cfg := range cfgs {
+			k, jump := seqK, false
+			if allReliable(cfg) {
+				k, jump = seqK+1, true
 			}
-			// the jump letter is the last one: use the first seqK letters plus the jump letter
-		}
-		total := seqCount(k, seqLen)
-		nSeq += total
-		for from, b := 0, 0; from < total; from, b = from+batch, b+1 {
-			cs := seqCase(cfg, k, seqLen, from, min(from+batch, total), b)
-			if allReliable(cfg) && k == seqK+1 && seqK+1 < len(seqAlphabet) {
-				remapJump(&cs, seqK)
+			total := seqCount(k, seqLen)
+			nSeq += total
+			for from, b := 0, 0; from < total; from, b = from+batch, b+1 {
+				c := cfg
+				c.Rd2 = ""
+				cases = append(cases, Case{Cfg: c, Kind: "seq", Gen: &Gen{K: k, MaxLen: seqLen, From: from, To: min(from+batch, total), Batch: b, Jump: jump}})
 			}
-			cases = append(cases, cs)
 		}
 	}
 	nBatch := len(cases)
-	// part 2
+	// part 2: placements of reader events
 	p1 := readerPlacements(ev1)
 	p2 := readerPlacements(ev2)
 	n := 0
-	for _, cfg := range cfgs {
-		for _, a := range p1 {
-			cases = append(cases, placeCase(cfg, []uint16{0, 65534}[n%2], a))
-			n++
+	start := func(cfg Cfg) uint16 {
+		n++
+		if cfg.Secure {
+			return 0 // see part 3
 		}
-		for _, a := range p2 {
-			for _, b := range p2 {
-				cases = append(cases, placeCase(cfg, []uint16{0, 65534}[n%2], a, b))
-				n++
+		return []uint16{0, 65534}[n%2]
+	}
+	mk := func(cfg Cfg, rs ...placed) Case {
+		g := &Gen{}
+		for _, r := range rs {
+			g.Scripts = append(g.Scripts, r.script)
+			g.Pos = append(g.Pos, r.pos)
+		}
+		if len(rs) < 2 {
+			cfg.Rd2 = ""
+		}
+		return Case{Cfg: cfg, Kind: "place", StartSeq: start(cfg), Gen: g}
+	}
+	n1, n2 := 0, 0
+	for _, cfg := range cfgs {
+		if part("place1") {
+			for _, a := range p1 {
+				cases = append(cases, mk(cfg, a))
+				n1++
+			}
+		}
+		if part("place2") && (thorough || (cfg.Shape == "2m" && !cfg.Secure && (cfg.Dir == dirStream || cfg.Pub == cfg.Rd))) {
+			for _, a := range p2 {
+				for _, b := range p2 {
+					cases = append(cases, mk(cfg, a, b))
+					n2++
+				}
+			}
+		}
+	}
+	// part 3: SRTP and the sequence-number wrap: a reader joins between the last packet before the wrap and the
+	// first one after it (one case per TLS configuration; the placement part runs TLS from sequence number 0)
+	n3 := 0
+	if part("srtpwrap") {
+		for _, cfg := range cfgs {
+			if cfg.Secure {
+				slot := 4
+				if cfg.Shape == "1m1f" {
+					slot = 2
+				}
+				c := cfg
+				c.Rd2 = ""
+				cases = append(cases, Case{Cfg: c, Kind: "place", StartSeq: 65534, Gen: &Gen{Scripts: []string{"j"}, Pos: [][]int{{slot}}}})
+				n3++
 			}
 		}
 	}
 	run.Set("configurations", len(cfgs))
 	run.Set("packet_words", nSeq)
 	run.Set("word_batches", nBatch)
-	run.Set("placement_cases", len(cases)-nBatch)
+	run.Set("placement_cases_one_reader", n1)
+	run.Set("placement_cases_two_readers", n2)
+	run.Set("srtp_wrap_cases", n3)
 
-	// jobs: batches are heavy (one per job group of 4), placement cases light (60 per job)
-	var jobs []any
+	// jobs: word batches are heavy (2 per job), placement cases light (80 per job), the SRTP cases may each wait
+	// for the hang limit (1 per job)
 	var jobCases [][]int
 	for i := 0; i < nBatch; i += 2 {
 		var idx []int
@@ -424,15 +533,19 @@ func main() {
 		}
 		jobCases = append(jobCases, idx)
 	}
-	for i := nBatch; i < len(cases); i += 60 {
+	for i := nBatch; i < len(cases)-n3; i += 80 {
 		var idx []int
-		for k := i; k < min(i+60, len(cases)); k++ {
+		for k := i; k < min(i+80, len(cases)-n3); k++ {
 			idx = append(idx, k)
 		}
 		jobCases = append(jobCases, idx)
 	}
-	// interleave heavy and light jobs so that the tail is short
-	sort.SliceStable(jobCases, func(a, b int) bool { return a%7 < b%7 })
+	// interleave heavy and light jobs so that the tail is short; the slow SRTP cases go first
+	sort.SliceStable(jobCases, func(a, b int) bool { return a%11 < b%11 })
+	for i := len(cases) - n3; i < len(cases); i++ {
+		jobCases = append([][]int{{i}}, jobCases...)
+	}
+	var jobs []any
 	for _, idx := range jobCases {
 		var j job
 		for _, k := range idx {
@@ -444,6 +557,10 @@ func main() {
 
 	agg := map[string]int64{}
 	perCfg := map[string]int64{}
+	short := func(cs Case) string {
+		s := caseString(expand(cs))
+		return s[:min(300, len(s))]
+	}
 	for ji, r := range results {
 		idx := jobCases[ji]
 		if r.Crashed || r.Stalled {
@@ -453,9 +570,9 @@ func main() {
 			}
 			var hs []string
 			for _, k := range idx[:min(len(idx), 5)] {
-				hs = append(hs, caseString(cases[k])[:min(400, len(caseString(cases[k])))])
+				hs = append(hs, short(cases[k]))
 			}
-			run.Violation(sigBase(cases[idx[0]].Cfg)+"/"+sig, map[string]any{"cases_in_job": hs, "first_case": cases[idx[0]], "stderr": r.Stderr})
+			run.Violation(sigBase(cases[idx[0]].Cfg)+"/"+sig, map[string]any{"cases_in_job": hs, "case": expand(cases[idx[0]]), "stderr": r.Stderr})
 			continue
 		}
 		var out jobOut
@@ -481,7 +598,14 @@ func main() {
 			}
 			run.Outcome(cs.Cfg.String() + "|" + res.Outcome)
 			if res.Received > 0 {
-				run.NontrivialHash(evid.Hash(caseString(cs)))
+				b, _ := json.Marshal(cs)
+				run.NontrivialHash(evid.Hash(string(b)))
+				if cs.Kind == "seq" {
+					// every word of the batch was delivered to the always-on reader
+					for k := 1; k < res.Segments; k++ {
+						run.NontrivialHash(evid.Hash(string(b) + fmt.Sprint("#", k)))
+					}
+				}
 			}
 			agg["packets_written"] += int64(res.Written)
 			agg["packets_received"] += int64(res.Received)
@@ -497,27 +621,27 @@ func main() {
 				agg["tap_skipped_cases"]++
 				run.Set("tap_skipped_example", res.TapSkipped)
 			}
-			perCfg[cs.Cfg.Dir+"/"+cs.Cfg.Pub+">"+cs.Cfg.Rd+fmt.Sprint("/tls=", cs.Cfg.Secure)] += int64(res.Received)
-			if res.UDPTimeouts > 0 {
-				run.Flaky(fmt.Sprintf("UDP delivery barrier timed out (not a violation: UDP only promises a subsequence) in %s", caseString(cs)[:min(300, len(caseString(cs)))]))
+			perCfg[sigBase(cs.Cfg)] += int64(res.Received)
+			if res.UDPTimeouts > 0 && !cs.Cfg.Secure {
+				run.Flaky("UDP delivery barrier timed out (not a violation: UDP only promises a subsequence) in " + short(cs))
 			}
 			if run.NeedSample() && (idx[oi]%977 == 3 || (cs.Kind == "place" && idx[oi]%1013 == 7)) {
-				show := cs
-				if cs.Kind == "seq" && res.Segments > 1 {
-					show = *isolate(cs, 1)
+				show := expand(cs)
+				if cs.Kind == "seq" && res.Segments > 7 {
+					show = *isolate(show, 7)
 				}
 				run.Sample(map[string]any{"history": caseString(show), "written": res.Written, "received": res.Received, "outcome": res.Outcome})
 			}
 			if len(res.Fails) == 0 && res.HarnessErr != "" {
 				if o.Repro >= 1 {
-					run.Violation(sigBase(cs.Cfg)+"/harness-error", map[string]any{"case": cs, "history": caseString(cs), "msg": res.HarnessErr, "reproduced": fmt.Sprintf("%d/%d", o.Repro, o.Rerun)})
+					run.Violation(sigBase(cs.Cfg)+"/harness-error", map[string]any{"case": expand(cs), "history": caseString(expand(cs)), "msg": res.HarnessErr, "reproduced": fmt.Sprintf("%d/%d", o.Repro, o.Rerun)})
 				} else {
-					run.Flaky("harness-level error did not reproduce: " + res.HarnessErr + " in " + caseString(cs)[:min(300, len(caseString(cs)))])
+					run.Flaky("harness-level error did not reproduce: " + res.HarnessErr + " in " + short(cs))
 				}
 				continue
 			}
 			for fi, f := range res.Fails {
-				rc := cs
+				rc := expand(cs)
 				if o.Single != nil {
 					rc = *o.Single
 				}
@@ -525,11 +649,11 @@ func main() {
 				if fi == 0 {
 					detail["reproduced"] = fmt.Sprintf("%d/%d", o.Repro, o.Rerun)
 					if o.Repro == 0 {
-						run.Flaky(fmt.Sprintf("%s did not reproduce in %d re-runs: %s | %s", f.Sig, o.Rerun, f.Msg, caseString(rc)[:min(300, len(caseString(rc)))]))
+						run.Flaky(fmt.Sprintf("%s did not reproduce in %d re-runs: %s | %s", f.Sig, o.Rerun, f.Msg, short(rc)))
 						break
 					}
 				} else if o.Single != nil {
-					detail["case"], detail["history"] = cs, caseString(cs)
+					detail["case"], detail["history"] = expand(cs), caseString(expand(cs))
 				}
 				run.Violation(f.Sig, detail)
 			}
@@ -539,10 +663,8 @@ func main() {
 		run.Set(k, v)
 	}
 	run.Set("packets_received_per_direction_transport", perCfg)
-	if !run.NeedSample() {
-		// ok
-	} else if len(cases) > 0 {
-		run.Sample(map[string]any{"history": caseString(cases[len(cases)-1])})
+	if run.NeedSample() && len(cases) > 0 {
+		run.Sample(map[string]any{"history": caseString(expand(cases[len(cases)-1]))})
 	}
 	run.Finish()
 }
@@ -563,12 +685,3 @@ func lettersString(ls []Letter) string {
 	return strings.Join(s, " ")
 }
 
-// remapJump makes letter index k (the first unused one) mean the jump letter (last of the alphabet).
-func remapJump(cs *Case, k int) {
-	for i := range cs.Steps {
-		if cs.Steps[i].Op == "w" && *cs.Steps[i].L == seqAlphabet[k] {
-			l := seqAlphabet[len(seqAlphabet)-1]
-			cs.Steps[i].L = &l
-		}
-	}
-}
